@@ -1930,7 +1930,7 @@ end
 
 -- Compile-time values are the same only if no code can tell them apart (0.0 == -0.0 in Lua).
 local function same_comptime_value(a, b)
-  if a ~= b then return false end
+  if a ~= b then return a ~= a and b ~= b end -- two NaNs are one and the same compile-time value
   if a == 0 and math.type(a) == 'float' and math.type(b) == 'float' then return 1/a == 1/b end
   return true
 end
